@@ -16,14 +16,16 @@ scal = st.sampled_from(["int", "str", "Optional[bool]", "List[int]", "float"])
 
 
 @st.composite
-def section(draw, style, allow_star=False, multiline=False):
+def section(draw, style, allow_star=False, multiline=False, returns_only=False):
     n = draw(st.integers(1, 4))
+    if returns_only and draw(st.integers(0, 5)) == 0:
+        n = 0  # a function without parameters: the section consists of the return entry alone
     ns = draw(st.lists(names.filter(lambda s: s[:2] not in ("hw", "fw", "pd", "rd")), min_size=n, max_size=n, unique=True))
     if allow_star and draw(st.integers(0, 3)) == 0:
         ns = ns + ["*args"] if style != "numpydoc" else ns + ["*args"]
     if allow_star and draw(st.integers(0, 3)) == 0:
         ns = ns + ["**kwargs"]
-    ret = draw(st.booleans())
+    ret = draw(st.booleans()) or n == 0
     L, params = [], []
     seen_default = False
     for x in ns:
@@ -66,9 +68,9 @@ def section(draw, style, allow_star=False, multiline=False):
         if style == "rest":
             L += [":return: rd", ":rtype: ```%s```" % rtyp]
         elif style == "google":
-            L += ["", "Returns:", "  %s:" % rtyp, "   rd"]
+            L += ([""] if L else []) + ["Returns:", "  %s:" % rtyp, "   rd"]
         else:
-            L += ["", "Returns", "-------", rtyp, "    rd"]
+            L += ([""] if L else []) + ["Returns", "-------", rtyp, "    rd"]
     return L, params, rtyp
 
 
@@ -76,7 +78,7 @@ FOOT_HEADS = [["Notes:", "  "], ["Example:"], [">>> f(1)"], [], ["Usage::"], ["R
 
 
 @st.composite
-def docstr(draw, styles=("rest", "google", "numpydoc"), allow_star=False, multiline=False, footer=True, indents=(0, 4, 8), mentions=False):
+def docstr(draw, styles=("rest", "google", "numpydoc"), allow_star=False, multiline=False, footer=True, indents=(0, 4, 8), mentions=False, returns_only=False):
     style = draw(st.sampled_from(styles))
     paras = draw(st.lists(st.lists(hw, min_size=1, max_size=3), min_size=0, max_size=3))
     mention = None
@@ -97,7 +99,7 @@ def docstr(draw, styles=("rest", "google", "numpydoc"), allow_star=False, multil
         L += p + [""] * draw(st.integers(0 if last else 1, 2))
     header_lines = [l for l in L if l]
     L += [""] * draw(st.integers(0, 2))
-    sec, params, rtyp = draw(section(style, allow_star=allow_star, multiline=multiline))
+    sec, params, rtyp = draw(section(style, allow_star=allow_star, multiline=multiline, returns_only=returns_only))
     L += sec
     foot = footer and draw(st.booleans())
     foot_lines = []
